@@ -2,6 +2,7 @@
 import Frugal.Proofs.DepthProps
 import Frugal.Proofs.DecodeRefine
 import Frugal.Proofs.DepthBound
+import Frugal.Proofs.FuelMono
 import Frugal.Proofs.DecodeSafe
 import Frugal.Props.Inst.Params
 import Frugal.Props.Inst.F_facts_recursionDiscipline
@@ -45,8 +46,7 @@ theorem accepted_is_within_bound (S : Schema) (hS : S.ok = true) (sid : Nat) (fs
 
 /-- … so a well-formed message nested more deeply than that on a recognised path is rejected with an
     error, however long it is: never accepted (above), never a panic (C05), and the recursion is on
-    the budget (`zero_budget_*`), not on the input.  **Partial**: that the error is the depth-limit
-    error (rather than an error met earlier in the message) is not stated. -/
+    the budget (`zero_budget_*`), not on the input. -/
 theorem deeper_known_nesting_is_an_error (S : Schema) (hS : S.ok = true) (sid : Nat)
     (fs : List (Nat × TVal)) (trailing : Bytes) (dest : Val) (hw : wfFields fs = true)
     (hdeep : knownDepth S (.strct sid) (.strct fs) > 1023) :
@@ -59,6 +59,41 @@ theorem deeper_known_nesting_is_an_error (S : Schema) (hS : S.ok = true) (sid : 
     omega
   | err e => exact ⟨e, rfl⟩
   | panic p => rw [hres] at hp; cases hp
+
+/-- **the depth-limit error, not another one.**  The budget only ever turns an outcome into the
+    depth-limit error (`readStruct_mono_add`, Proofs/FuelMono.lean: an outcome other than that error is
+    the outcome under every larger budget).  Hence a well-formed message that is nested more deeply
+    than the bound on a recognised path and is otherwise acceptable — some larger budget `1023 + k`
+    would accept it — is rejected with exactly the depth-limit error. -/
+theorem deep_but_otherwise_valid_is_the_depth_error (S : Schema) (hS : S.ok = true) (sid : Nat)
+    (fs : List (Nat × TVal)) (trailing : Bytes) (dest : Val) (hw : wfFields fs = true)
+    (hdeep : knownDepth S (.strct sid) (.strct fs) > 1023)
+    (hvalid : ∃ k w, readStruct Generated.params S ((ser (.strct fs)).length + trailing.length)
+      (1023 + k) sid fs trailing.length dest = .ok w) :
+    decodeM Generated.params S sid (ser (.strct fs) ++ trailing) dest = .err .depth := by
+  obtain ⟨k, w, hk⟩ := hvalid
+  rw [decodeM_refines Instances.params_valid S hS sid fs trailing dest hw]
+  have hm : Generated.params.maxDepth = 1023 := rfl
+  unfold readMessage
+  rw [hm]
+  cases hnd : (readStruct Generated.params S ((ser (.strct fs)).length + trailing.length) 1023 sid fs
+      trailing.length dest).isDepthErr with
+  | true =>
+    cases hr : readStruct Generated.params S ((ser (.strct fs)).length + trailing.length) 1023 sid fs
+        trailing.length dest with
+    | ok x => rw [hr] at hnd; cases hnd
+    | panic p => rw [hr] at hnd; cases hnd
+    | err e =>
+      rw [hr] at hnd
+      cases e <;> first | rfl | cases hnd
+  | false =>
+    exfalso
+    have := readStruct_mono_add Generated.params S _ k 1023 sid fs trailing.length dest hnd
+    rw [hk] at this
+    have hacc : readMessage Generated.params S sid fs trailing.length dest = .ok w := by
+      unfold readMessage; rw [hm]; exact this.symm
+    have := readMessage_depth Generated.params S sid fs trailing.length dest w hacc
+    omega
 
 /-- skipped (unknown) data deeper than the skipper's own limit is a depth error, not a crash -/
 theorem deep_unknown_is_depth_error (v : TVal) (r : Bytes) (hw : wf v = true)
